@@ -117,7 +117,8 @@ Inductive qxop :=
 | QEOrIns (k v : bytes) | QEOrInsWith (k v : bytes) | QEAndMod (k suf v : bytes) | QEInsert (k v : bytes)
 | QERemove (k : bytes) | QERemoveEntry (k : bytes) | QEGetMut (k suf : bytes)
 | QLen | QTRepo (u : bytes) | QTGet | QTHas | QTDel | QTCs (ops : list cop) | QTCsGet | QKeyCmp (s : bytes)
-| QTKIns (i : nat) (v : bytes) | QTKGet (i : nat) | QTKDel (i : nat).
+| QTKIns (i : nat) (v : bytes) | QTKGet (i : nat) | QTKDel (i : nat)
+| QTUIns (k v : bytes) | QTUDel (k : bytes).     (* insert_typed / remove_typed of a user-written KnownQualifierKey with KEY = k *)
 Inductive qxout :=
 | XoU | XoUV (v : bytes) | XoE | XoOpt (o : option bytes) | XoB (b : bool) | XoPanic
 | XoVC (v : bytes) (called : bool) | XoOcc2 (g old : bytes) | XoVac | XoVacV (v : bytes) | XoOcc (v : bytes) | XoOccKV (k v : bytes)
@@ -194,6 +195,8 @@ Definition qxstep (q : quals) (o : qxop) : quals * qxout :=
   | QTKIns i v => match q_insert cfg q (nth i (typed_keys cfg) []) v with Ok q' => (q', XoU) | Err _ => (q, XoPanic) end
   | QTKGet i => (q, XoOpt (q_get cfg q (nth i (typed_keys cfg) [])))
   | QTKDel i => (fst (q_remove cfg q (nth i (typed_keys cfg) [])), XoU)
+  | QTUIns k v => match q_insert cfg q k v with Ok q' => (q', XoU) | Err _ => (q, XoPanic) end
+  | QTUDel k => (fst (q_remove cfg q k), XoU)
   end.
 Fixpoint qxrun (q : quals) (ops : list qxop) : quals * list qxout :=
   match ops with
@@ -211,6 +214,14 @@ Definition comb_case (t : ptype) (s : bytes) :=
           let '(ns2, name2) := combined_split t' cn in
           Ok (p', cn, (match ns2 with Some n => n | None => [] end, name2))
       | Err e => Err e end).
+
+Definition comb_purl (s : bytes) :=
+  match parse cfg (ptype_shape cfg) s with
+  | Err e => Err e
+  | Ok (t, p) => let cn := combined_name t p in
+                 let '(ns2, name2) := combined_split t cn in
+                 Ok (t, p, cn, (match ns2 with Some n => n | None => [] end, name2))
+  end.
 
 (* ---------------- the family of user-written shapes (C14) ---------------- *)
 Inductive fconv := ConvAlways | ConvFail | ConvCustom.
